@@ -14,6 +14,7 @@ mod envrun;
 mod marketrun;
 mod model;
 mod pytwin;
+mod shufflerun;
 use bourse_book::types::{Event, Order, Side, Status, Trade};
 use bourse_book::OrderBook;
 use model::*;
@@ -1131,6 +1132,13 @@ fn main() {
             let progress = arg(&args, "--progress").map_or(false, |s| s == "1");
             let (d, no, nt) = detrun::digest(config, seed, progress);
             println!("{} {} {}", d, no, nt);
+        }
+        "shuffle-stats" => {
+            let seed: u64 = arg(&args, "--seed").map_or(0, |s| s.parse().unwrap());
+            let n: usize = arg(&args, "--steps").map_or(30000, |s| s.parse().unwrap());
+            let (runs, bad) = shufflerun::shuffle_stats(seed, n);
+            println!("{}", serde_json::json!({"seeded_steps_run": runs, "bad": bad}));
+            std::process::exit(if bad.is_empty() { 0 } else { 1 });
         }
         "derive-twin" => {
             let seed: u64 = arg(&args, "--seed").map_or(0, |s| s.parse().unwrap());
